@@ -54,7 +54,7 @@ Lemma pres_r1 s ac s' : Inv s -> step true s ac = Some s' -> rdead (R s') = true
 Proof. intros Hi H. use Hi. pose proof (I_r1 _ Hi) as P. go H; fin. Qed.
 
 Lemma pres_r2 s ac s' : Inv s -> step true s ac = Some s' -> rdead (R s') = true ->
-  match rp (R s') with RPark | RSusp | KStore | KEmpty | KChans | KTake | RStore => False | _ => True end.
+  match rp (R s') with RPark | RSusp | KStore | KEmpty | KChans | KTake | KRun | RStore => False | _ => True end.
 Proof. intros Hi H. use Hi. pose proof (I_r1 _ Hi) as P. pose proof (I_r2 _ Hi) as P2. go H; fin. Qed.
 
 Lemma pres_r3 s ac s' : Inv s -> step true s ac = Some s' -> rdead (R s') = true -> rp (R s') = RIdle ->
